@@ -698,6 +698,164 @@ macro_rules! float_dyadic { ($s:expr, $F:ident, $PI:expr) => {{
     s.sample(json!({"type": stringify!($F), "values": vals.len(), "uppers": ups.len(), "between-pairs": pairs.len(), "angles": angs.len(), "degrees": degs.len(), "clamp grid": cv.len()}));
 }} }
 
+// ================================================================================================
+// Second audit round (sections "... (audit 2)"): the tolerances of the text where exact rounding attains them, and
+// alphabets around every special value of every bound
+// ================================================================================================
+//
+// Why these laws are attainable (so that correct code is silent) - every remainder below is exact (fmod):
+//  * wrapped(x, up), x >= 0:      the representative of x in [0, up) is representable (x itself when x < up, the exact
+//                                 remainder otherwise): congruence within 8 eps |x| - "a few units in the last place of the
+//                                 input's magnitude", the tolerance of the text, not of the (possibly much larger) bound.
+//  * wrapped(x, up), x <  0:      one rounded addition r + up: congruence within eps max(|x|, up) (the old tolerance), but
+//                                 the result never leaves [0, up]: the range is asserted within 8 eps |x|.
+//  * wrapped_between(x, lo, hi), x >= lo: every intermediate (x - lo, the remainder, + lo) is bounded by |x|; the rounded
+//                                 period fl(hi - lo) is off by <= eps/2 (hi - lo), i.e. <= eps/2 |x| after (x - lo)/(hi - lo) periods.
+//  * pingpong: upper - |t - upper| with t in [0, 2 upper] never leaves [0, upper]: "values in [0,upper]" has no tolerance in the text.
+//  * delta_angle(_degrees): num in [0, 2h] is returned for num <= h, num - 2h (exact, Sterbenz) for num > h: the result never
+//                                 leaves (-h, h] for h = PI of the type (resp. 180): asserted exactly.
+macro_rules! float_audit2 { ($s:expr, $F:ident, $PI:expr) => {{
+    let s: &Section = $s;
+    let thorough = s.thorough();
+    let eps = $F::EPSILON as f64;
+    let nx = |f: $F| $F::from_bits(f.to_bits() + 1); // next float above a positive finite f
+    let pv = |f: $F| $F::from_bits(f.to_bits() - 1); // next float below a positive f
+    let dedup = |mut v: Vec<$F>| -> Vec<$F> { v.retain(|x| x.is_finite()); v.sort_by_key(|x| x.to_bits()); v.dedup_by_key(|x| x.to_bits()); v };
+    let pi = $PI as $F; let two_pi = pi + pi;
+    let tiny: $F = (2.0 as $F).powi(-60);
+    let sub = $F::from_bits(1);
+    let big70: $F = 1180591620717411303424.0;
+    let site = |f: &str| format!("Wrap::{}<{}>", f, stringify!($F));
+    let lit = |x: $F| -> f64 { 8.0 * eps * (x.abs() as f64) };
+    let loose = |x: $F, up: $F| -> f64 { 8.0 * eps * (x.abs() as f64).max(up as f64) };
+    // neighbourhood of a positive value c: just below / at / just above
+    let around = |c: $F, out: &mut Vec<$F>| { if c.is_finite() && c > 0.0 { if c > sub { out.push(pv(c)); } out.push(c); if c < $F::MAX { out.push(nx(c)); } } };
+    let base: Vec<$F> = { let mut b: Vec<$F> = vec![0.0, sub, $F::from_bits(12345), pv($F::MIN_POSITIVE), $F::MIN_POSITIVE, tiny, 1e-20 as $F, $F::EPSILON, 1e-3, 0.1, 0.5, 1.0, 1.5, 3.0, 7.25, 359.9999, 360.0, 12345.678, 1e7, 9007199254740992.0, big70, 1e20, 1e30, $F::MAX / 1024.0, $F::MAX / 2.0, $F::MAX];
+        if thorough { for k in (-140..=120).step_by(3) { b.push((1.3 * (2.0f64).powi(k)) as $F); } } // formed in f64: powi(-k) of the type is 1/2^k, zero once 2^k overflows
+        b };
+    // the values tried against one period p that starts at lo: the base alphabet, the neighbourhoods of lo + k p
+    // (k = 1/2, 1, 3/2, 2, 3, 4 and the mirror images), and values far below the period (p 2^-30, p 2^-60)
+    let values_for = |lo: $F, p: $F| -> Vec<$F> {
+        let mut v: Vec<$F> = Vec::new();
+        for &b in &base { v.push(b); v.push(-b); }
+        let mut pos: Vec<$F> = Vec::new();
+        for k in [0.5 as $F, 1.0, 1.5, 2.0, 3.0, 4.0] { around(lo + k * p, &mut pos); around(k * p, &mut pos); }
+        around(lo, &mut pos);
+        around(p * (2.0 as $F).powi(-30), &mut pos); around(p * (2.0 as $F).powi(-60), &mut pos);
+        for &c in &pos { v.push(c); v.push(-c); }
+        dedup(v)
+    };
+    let mut ups: Vec<$F> = vec![sub, $F::from_bits(2), $F::from_bits(12345), pv($F::MIN_POSITIVE), $F::MIN_POSITIVE, nx($F::MIN_POSITIVE), tiny, $F::EPSILON, 1e-3, 0.1, 0.5, pv(1.0), 1.0, nx(1.0), 3.0, nx(3.0), 7.25, two_pi, 180.0, 360.0, 1e7, big70, 1e30, $F::MAX / 4.0, pv($F::MAX / 2.0), $F::MAX / 2.0];
+    if thorough { for k in (-145..=120).step_by(5) { ups.push((2.0f64).powi(k) as $F); ups.push((1.7 * (2.0f64).powi(k)) as $F); } }
+    ups.retain(|u| *u > 0.0 && *u <= $F::MAX / 2.0);
+    let ups = dedup(ups); // all <= MAX/2: upper + upper is representable (the known finding on upper > MAX/2 is not re-reported here)
+    let wrap_fail = |f: &str, x: $F, lo: $F, hi: $F, r: Result<$F, Caught>, tolr: f64, tolc: f64, literal: bool| {
+        match r {
+            Ok(r) => if let Some(why) = wrap_law(x as f64, r as f64, lo as f64, hi as f64, tolr, tolc) {
+                let class = if literal { format!("beyond-a-few-ulps-of-the-input:{}", why) } else { format!("wrong-value:{}", why) };
+                s.violation_w(&site(f), &class, json!({"x": jd(&x), "lower": jd(&lo), "upper": jd(&hi), "got": jd(&r), "range tolerance": tolr, "congruence tolerance": tolc}), (x.abs() as f64).max(1e-300).log2().abs() as u64);
+            },
+            Err(e) => s.violation(&site(f), "panic-on-valid-input", json!({"x": jd(&x), "lower": jd(&lo), "upper": jd(&hi), "err": jd(&e)})),
+        }
+    };
+    // ---- (a) period starting at zero: wrapped, wrap, wrapped_between(0, up), wrap_between(0, up), pingpong; wrapped_2pi/wrap_2pi for up = 2 pi
+    ups.par_iter().for_each(|&up| { for x in values_for(0.0, up) {
+        let nonneg = x >= 0.0;
+        s.evals(5, 5);
+        s.class(if up < $F::MIN_POSITIVE { "subnormal-upper" } else if nonneg && x < up { if (x as f64) < (up as f64) * 1e-6 { "in-range-far-below-upper" } else { "in-range" } } else if nonneg { "beyond-upper" } else if (x.abs() as f64) < (up as f64) * eps { "negative-absorbed-by-upper" } else { "negative" });
+        let (tolr, tolc) = (lit(x), if nonneg { lit(x) } else { loose(x, up) });
+        wrap_fail("wrapped", x, 0.0, up, catch(|| x.wrapped(up)), tolr, tolc, true);
+        wrap_fail("wrap", x, 0.0, up, catch(|| <$F as Wrap>::wrap(x, up)), tolr, tolc, true);
+        wrap_fail("wrapped_between", x, 0.0, up, catch(|| x.wrapped_between(0.0, up)), tolr, tolc, true);
+        wrap_fail("wrap_between", x, 0.0, up, catch(|| <$F as Wrap>::wrap_between(x, 0.0, up)), tolr, tolc, true);
+        if up == two_pi { s.evals(2, 2);
+            wrap_fail("wrapped_2pi", x, 0.0, up, catch(|| x.wrapped_2pi()), tolr, tolc, true);
+            wrap_fail("wrap_2pi", x, 0.0, up, catch(|| <$F as Wrap>::wrap_2pi(x)), tolr, tolc, true);
+        }
+        match catch(|| x.pingpong(up)) {
+            Ok(r) => {
+                if !(r >= 0.0 && r <= up) { s.violation_w(&site("pingpong"), "outside-[0,upper]", json!({"x": jd(&x), "upper": jd(&up), "got": jd(&r)}), (x.abs() as f64).max(1e-300).log2().abs() as u64); }
+                else if let Some(why) = pingpong_law(x as f64, r as f64, up as f64, 2.0 * loose(x, up)) { s.violation(&site("pingpong"), "wrong-value", json!({"x": jd(&x), "upper": jd(&up), "got": jd(&r), "failed": why})); }
+            }
+            Err(e) => s.violation(&site("pingpong"), "panic-on-valid-input", json!({"x": jd(&x), "upper": jd(&up), "err": jd(&e)})),
+        }
+    } });
+    // ---- (b) period starting at lower > 0 (all bounds <= 1e30, so that x - lower is representable for every finite x)
+    let mut bs: Vec<$F> = vec![sub, $F::MIN_POSITIVE, tiny, 1e-3, 1.0, pv(3.0), 3.0, nx(3.0), 360.0, 1e7, nx(1e7), 1e30];
+    if thorough { for k in (-120..=90).step_by(15) { bs.push((1.3 * (2.0f64).powi(k)) as $F); } }
+    bs.retain(|u| *u > 0.0);
+    let bs = dedup(bs);
+    let pairs: Vec<($F, $F)> = bs.iter().flat_map(|&lo| bs.iter().filter(move |&&hi| lo < hi).map(move |&hi| (lo, hi))).collect();
+    pairs.par_iter().for_each(|&(lo, hi)| { let range = hi - lo; for x in values_for(lo, range) {
+        if !(x - lo).is_finite() { continue; }
+        s.evals(2, 2);
+        let at_or_above = x >= lo;
+        s.class(if at_or_above { if x < hi { "between:in-range" } else { "between:beyond-upper" } } else { "between:below-lower" });
+        // below lower the sum r + (hi - lo) + lo is rounded at the magnitude of the bounds: the tolerance of the first audit
+        let t2 = loose(x, hi);
+        let (tolr, tolc) = if at_or_above { (lit(x), lit(x)) } else { (t2, 2.0 * t2) };
+        wrap_fail("wrapped_between", x, lo, hi, catch(|| x.wrapped_between(lo, hi)), tolr, tolc, at_or_above);
+        wrap_fail("wrap_between", x, lo, hi, catch(|| <$F as Wrap>::wrap_between(x, lo, hi)), tolr, tolc, at_or_above);
+    } });
+    // ---- (c) angle differences at the ends of (-h, h]: neighbourhoods of the multiples of a quarter turn
+    let ang_alphabet = |q: $F| -> Vec<$F> {
+        let mut pos: Vec<$F> = vec![sub, $F::MIN_POSITIVE, tiny, 0.25, 1.0];
+        for k in [1.0 as $F, 2.0, 3.0, 4.0, 5.0, 6.0, 8.0, 10.0, 12.0, 400.0, 402.0] { around(k * q, &mut pos); }
+        if thorough { for k in 13..=64 { around((k as $F) * q, &mut pos); } }
+        let mut v: Vec<$F> = vec![0.0];
+        for &c in &pos { v.push(c); v.push(-c); }
+        dedup(v)
+    };
+    let angs = ang_alphabet(pi / 2.0);
+    angs.par_iter().for_each(|&a| { for &b in &angs {
+        let d = b - a;
+        s.evals(1, if d.abs() > pi { 1 } else { 0 });
+        s.class(if d.abs() == pi { "angle:exactly-half-turn" } else if (d.abs() - pi).abs() <= 4.0 * $F::EPSILON * pi { "angle:next-to-half-turn" } else if d.abs() > pi { "angle:needs-wrap" } else { "angle:direct" });
+        match catch(|| a.delta_angle(b)) {
+            Ok(r) => {
+                if !(r > -pi && r <= pi) { s.violation(&site("delta_angle"), "outside-(-pi,pi]", json!({"self": jd(&a), "target": jd(&b), "got": jd(&r), "pi": jd(&pi)})); }
+                let t = 16.0 * eps * (a.abs().max(b.abs()) as f64).max(7.0);
+                if let Some(why) = angle_law(a as f64, b as f64, r as f64, pi as f64, t) { s.violation(&site("delta_angle"), "wrong-value", json!({"self": jd(&a), "target": jd(&b), "got": jd(&r), "failed": why})); }
+                if d.abs() == pi && !(r > 0.0) { s.violation(&site("delta_angle"), "half-turn-returned-at-open-end", json!({"self": jd(&a), "target": jd(&b), "got": jd(&r)})); }
+            }
+            Err(e) => s.violation(&site("delta_angle"), "panic-on-valid-input", json!({"self": jd(&a), "target": jd(&b), "err": jd(&e)})),
+        }
+    } });
+    let degs = ang_alphabet(90.0);
+    degs.par_iter().for_each(|&a| { for &b in &degs {
+        let d = b - a;
+        s.evals(1, if d.abs() > 180.0 { 1 } else { 0 });
+        s.class(if d.abs() == 180.0 { "degrees:exactly-half-turn" } else if (d.abs() - 180.0).abs() <= 4.0 * $F::EPSILON * 180.0 { "degrees:next-to-half-turn" } else if d.abs() > 180.0 { "degrees:needs-wrap" } else { "degrees:direct" });
+        match catch(|| a.delta_angle_degrees(b)) {
+            Ok(r) => {
+                if !(r > -180.0 && r <= 180.0) { s.violation(&site("delta_angle_degrees"), "outside-(-180,180]", json!({"self": jd(&a), "target": jd(&b), "got": jd(&r)})); }
+                let t = 16.0 * eps * (a.abs().max(b.abs()) as f64).max(360.0);
+                if let Some(why) = angle_law(a as f64, b as f64, r as f64, 180.0, t) { s.violation(&site("delta_angle_degrees"), "wrong-value", json!({"self": jd(&a), "target": jd(&b), "got": jd(&r), "failed": why})); }
+                if d.abs() == 180.0 && r != 180.0 { s.violation(&site("delta_angle_degrees"), "half-turn-returned-at-open-end", json!({"self": jd(&a), "target": jd(&b), "got": jd(&r)})); }
+            }
+            Err(e) => s.violation(&site("delta_angle_degrees"), "panic-on-valid-input", json!({"self": jd(&a), "target": jd(&b), "err": jd(&e)})),
+        }
+    } });
+    // ---- (d) the unary clamp / range-test forms (defaulted methods an impl may override) next to their thresholds 0, 1, -1: exact
+    let cu: Vec<$F> = vec![$F::NEG_INFINITY, -$F::MAX, -2.0, -nx(nx(1.0)), -nx(1.0), -1.0, -pv(1.0), -pv(pv(1.0)), -0.5, -$F::EPSILON, -tiny, -$F::MIN_POSITIVE, -sub, -0.0, 0.0, sub, $F::MIN_POSITIVE, tiny, $F::EPSILON, 0.5, pv(pv(1.0)), pv(1.0), 1.0, nx(1.0), nx(nx(1.0)), 2.0, $F::MAX, $F::INFINITY];
+    let csite = |f: &str| format!("{}<{}>", f, stringify!($F));
+    for &v in &cu {
+        s.evals(5, if v < -1.0 || v > 1.0 { 5 } else { 0 });
+        s.class(if v < -1.0 || v > 1.0 { "unary:outside" } else if v < 0.0 { "unary:in-[-1,0)" } else { "unary:in-[0,1]" });
+        let w01: $F = if v < 0.0 { 0.0 } else if v > 1.0 { 1.0 } else { v };
+        let w11: $F = if v < -1.0 { -1.0 } else if v > 1.0 { 1.0 } else { v };
+        for (f, r, w) in [("Clamp::clamped01", catch(|| v.clamped01()), w01), ("Clamp::clamp01", catch(|| <$F as Clamp>::clamp01(v)), w01),
+                          ("Clamp::clamped_minus1_1", catch(|| v.clamped_minus1_1()), w11), ("Clamp::clamp_minus1_1", catch(|| <$F as Clamp>::clamp_minus1_1(v)), w11)] {
+            match r { Ok(g) => if g != w { s.violation(&csite(f), "wrong-value", json!({"v": jd(&v), "got": jd(&g), "want": jd(&w)})); },
+                      Err(e) => s.violation(&csite(f), "panic-on-valid-input", json!({"v": jd(&v), "err": jd(&e)})) }
+        }
+        match catch(|| v.is_between01()) { Ok(g) => if g != (0.0 <= v && v <= 1.0) { s.violation(&csite("IsBetween::is_between01"), "wrong-value", json!({"v": jd(&v), "got": g})); },
+                                         Err(e) => s.violation(&csite("IsBetween::is_between01"), "panic-on-valid-input", json!({"v": jd(&v), "err": jd(&e)})) }
+    }
+    s.sample(json!({"type": stringify!($F), "uppers": ups.len(), "values per upper": values_for(0.0, 3.0).len(), "between pairs": pairs.len(), "angles": angs.len(), "degrees": degs.len(),
+        "example": {"call": "1e-20.wrapped(3.0)", "law": "the input is in [0,3): the result is the input within 8 eps |input| (exactly 1e-20), not within 8 eps * 3"}}));
+}} }
+
 // ---- vector lifts: every vector type, every lane, every trait form ---------------------------------
 use vx::vecs::VecN;
 macro_rules! when { (yes $b:block) => { $b }; (no $b:block) => {}; }
@@ -970,5 +1128,12 @@ fn main() {
         });
         s.sample(json!({"law": "Vec64(..).wrapped_between(lo, hi).lane_i == value_i.wrapped_between(lo_i, hi_i) for i = 0..64; one bad lane anywhere => panic"}));
     });
+
+    // ============================ second audit round: added sections ============================
+    let r2 = "exact dyadic oracle; (a) uppers {min subnormal, 2 and 12345 subnormal units, neighbours of MIN_POSITIVE, 2^-60, EPSILON, 1e-3, .1, .5, neighbours of 1, 3, next(3), 7.25, 2pi, 180, 360, 1e7, 2^70, 1e30, MAX/4, prev(MAX/2), MAX/2} (thorough: + 2^k and 1.7 2^k, k=-145..120 step 5) x values {+-base alphabet from the min subnormal to MAX, +-(just below / at / just above) k*upper for k = 1/2, 1, 3/2, 2, 3, 4, +-neighbours of upper 2^-30 and upper 2^-60}: wrapped, wrap, wrapped_between(0,upper), wrap_between(0,upper) (and wrapped_2pi/wrap_2pi for upper = 2pi) lie in [0,upper] within 8 eps |x| and are congruent to x within 8 eps |x| for x >= 0 (8 eps max(|x|,upper) for x < 0): the tolerance of the text, a few units in the last place of the INPUT's magnitude, wherever exact rounding attains it - in particular an input already in [0,upper) comes back as itself; pingpong lies in [0,upper] exactly and is the triangle wave within 16 eps max(|x|,upper); (b) wrapped_between/wrap_between on every ordered pair of {min subnormal, MIN_POSITIVE, 2^-60, 1e-3, 1, prev(3), 3, next(3), 360, 1e7, next(1e7), 1e30} x the same value construction around lower + k (upper - lower): within 8 eps |x| for x >= lower, the first audit's tolerance below lower; (c) delta_angle / delta_angle_degrees on all ordered pairs of {0, +-min subnormal, +-MIN_POSITIVE, +-2^-60, +-.25, +-1, +-(just below / at / just above) k quarter turns for k = 1..6, 8, 10, 12, 400, 402} (thorough: k up to 64): the result lies in (-PI, PI] resp. (-180, 180] EXACTLY (no tolerance at either end), is congruent to target - self within 16 eps max(|self|,|target|,7 resp. 360), and an exact half turn comes back positive; (d) clamped01/clamp01/clamped_minus1_1/clamp_minus1_1/is_between01 on 28 values incl. two neighbours on each side of 1 and -1, +-EPSILON, +-subnormals, +-MAX, infinities: exact; non-trivial: every wrap case, angle pairs more than half a turn apart";
+    let c2 = ["subnormal-upper", "in-range", "in-range-far-below-upper", "beyond-upper", "negative", "negative-absorbed-by-upper", "between:in-range", "between:beyond-upper", "between:below-lower",
+        "angle:exactly-half-turn", "angle:next-to-half-turn", "angle:needs-wrap", "angle:direct", "degrees:exactly-half-turn", "degrees:next-to-half-turn", "degrees:needs-wrap", "degrees:direct", "unary:outside", "unary:in-[-1,0)", "unary:in-[0,1]"];
+    rep.section("f64, tolerance of the text where attainable, neighbourhoods of every bound (audit 2)", r2, true, false, |s| { s.require_classes(&c2); float_audit2!(s, f64, std::f64::consts::PI) });
+    rep.section("f32, tolerance of the text where attainable, neighbourhoods of every bound (audit 2)", r2, true, false, |s| { s.require_classes(&c2); float_audit2!(s, f32, std::f32::consts::PI) });
     std::process::exit(rep.finish());
 }
